@@ -32,6 +32,9 @@ use std::panic::AssertUnwindSafe;
 
 const FILE_SEP: &str = "\n<<<FILE>>>\n";
 
+#[path = "c11/cli_leg.rs"]
+mod cli_leg;
+
 // ---------------------------------------------------------------------------------------------
 // real code
 
@@ -730,6 +733,11 @@ struct Ctx {
     drv: Option<Driver>,
     shrink_runs: usize,
     samples_by_origin: BTreeMap<&'static str, usize>,
+    /// CLI leg: path of the built nitrogql-cli (`--cli`), scratch directory, project counter
+    cli: Option<String>,
+    scratch: String,
+    cli_seq: u64,
+    cli_later_notes: usize,
 }
 
 impl Ctx {
@@ -766,7 +774,7 @@ impl Ctx {
     }
 
     /// greedy shrink: drop whole items while the same (stream, signature) still fails
-    fn shrink(&mut self, abs: &Abs, stream: &str, sig: &str) -> Abs {
+    fn shrink(&mut self, abs: &Abs, stream: &str, sig: &str, cli: bool) -> Abs {
         let mut cur = abs.clone();
         let mut budget = 200usize;
         let still = |ctx: &mut Ctx, a: &Abs| -> bool {
@@ -774,7 +782,9 @@ impl Ctx {
                 return false;
             }
             ctx.shrink_runs += 1;
-            ctx.eval_one(&a.materialize()).iter().any(|f| f.stream == stream && f.sig == sig)
+            let m = a.materialize();
+            let fails = if cli { ctx.cli_eval_one(&m) } else { ctx.eval_one(&m) };
+            fails.iter().any(|f| f.stream == stream && f.sig == sig)
         };
         loop {
             let mut changed = false;
@@ -830,7 +840,7 @@ impl Ctx {
                     let mut what = f.what.clone();
                     if !known {
                         if let Some(abs) = &case.abs {
-                            let small = self.shrink(abs, f.stream, &f.sig);
+                            let small = self.shrink(abs, f.stream, &f.sig, false);
                             let m2 = small.materialize();
                             // keep the shrunk case only if it reproduces (it does by construction) and take its description
                             if let Some(f2) = self.eval_one(&m2).into_iter().find(|x| x.stream == f.stream && x.sig == f.sig) {
@@ -1042,7 +1052,11 @@ fn gen_based(rng: &mut Rng) -> Abs {
 
 /// generator 2: few names, every kind, several extensions per name, injected faults
 fn targeted(rng: &mut Rng, rep: &mut Report) -> Abs {
-    let pool = ["A", "B", "C", "Q"];
+    targeted_named(rng, rep, ["A", "B", "C", "Q"])
+}
+
+/// `targeted` over a given pool of four type names (the CLI leg passes names of built-in scalars among them)
+fn targeted_named(rng: &mut Rng, rep: &mut Report, pool: [&str; 4]) -> Abs {
     let mut items: Vec<TsItem> = vec![];
     // (kind index 0..6 = type kinds, 6 = schema ; name)
     let mut def_keys: Vec<(usize, String)> = vec![];
@@ -1396,6 +1410,37 @@ fn corpus() -> Vec<Mat> {
     ]
 }
 
+/// CLI leg: general shapes around the definitions that only the CLI supplies (the built-ins)
+fn cli_corpus() -> Vec<Mat> {
+    let many = |ts: &[&str], alt: Option<&[&str]>| Mat { files: ts.iter().map(|s| s.to_string()).collect(), alt: alt.map(|a| a.iter().map(|s| s.to_string()).collect()) };
+    let d = "scalar MarkArg\ndirective @mark(n: MarkArg) repeatable on SCHEMA | SCALAR | OBJECT | INTERFACE | UNION | ENUM | INPUT_OBJECT\n";
+    vec![
+        // every kind extended from another file, extensions first / last
+        many(
+            &[
+                &format!("{d}extend schema @mark(n: 1) {{ mutation: M }}\nextend scalar Date @mark(n: 2)\nextend type Q @mark(n: 3) {{ b: Date }}\nextend interface I {{ y: Int }}\nextend union U = M\nextend enum E {{ B }}\nextend input In {{ b: E }}\n"),
+                "schema { query: Q }\nscalar Date\ntype Q implements I { a: Int x: Int y: Int u: U }\ntype M { m(i: In): Int }\ninterface I { x: Int }\nunion U = Q\nenum E { A }\ninput In { a: Int }\n",
+            ],
+            Some(&[
+                "schema { query: Q }\nscalar Date\ntype Q implements I { a: Int x: Int y: Int u: U }\ntype M { m(i: In): Int }\ninterface I { x: Int }\nunion U = Q\nenum E { A }\ninput In { a: Int }\n",
+                &format!("{d}extend schema @mark(n: 1) {{ mutation: M }}\nextend scalar Date @mark(n: 2)\nextend type Q @mark(n: 3) {{ b: Date }}\nextend interface I {{ y: Int }}\nextend union U = M\nextend enum E {{ B }}\nextend input In {{ b: E }}\n"),
+            ]),
+        ),
+        // extensions of the scalars whose definitions the CLI appends, before / after / apart from the user's items
+        many(
+            &[&format!("{d}extend scalar Int @mark(n: 1)\ntype Query {{ a: Int b: Boolean }}\nextend scalar Boolean @mark(n: 2) @mark(n: 3)\n"), "extend scalar Int @mark(n: 4)\nextend scalar String @specifiedBy(url: \"https://example.com/s\")\n"],
+            Some(&[&format!("extend scalar Int @mark(n: 1)\nextend scalar Boolean @mark(n: 2) @mark(n: 3)\nextend scalar Int @mark(n: 4)\nextend scalar String @specifiedBy(url: \"https://example.com/s\")\n{d}type Query {{ a: Int b: Boolean }}\n")]),
+        ),
+        // a built-in scalar defined again by the user: defined twice within the kind
+        many(&["type Query { a: Int }\n", "scalar Float\n"], Some(&["scalar Float\ntype Query { a: Int }\n"])),
+        // an extension of another kind under a built-in scalar's name has no same-kind definition
+        many(&["type Query { a: Int }\nextend enum Boolean { MAYBE }\n"], None),
+        // orphan / duplicate among user items, across files
+        many(&["type Query { a: Int }\n", "\nextend interface Query { b: Int }\n"], Some(&["\nextend interface Query { b: Int }\ntype Query { a: Int }\n"])),
+        many(&["type Query { a: Int }\nscalar S\n", "\n\nscalar S\n"], None),
+    ]
+}
+
 // ---------------------------------------------------------------------------------------------
 
 fn main() {
@@ -1403,12 +1448,14 @@ fn main() {
     quiet_panics();
     let rep = Report::new(
         "C11",
-        "a case = ≤ 3 SDL files (definitions and `extend` items of all seven kinds, directive definitions), parsed, merged and resolved by the real code; \
+        "a case = ≤ 3 SDL files (definitions and `extend` items of all seven kinds, directive definitions), parsed, merged and resolved by the real code \
+         (library call; in the CLI leg the built nitrogql-cli on a scratch project, where the built-in definitions are appended); \
          non-trivial = the merged input contains at least one extension (any kind) or a fault (duplicate original / orphan extension); distinct by the file texts",
     );
     // `--nodriver 1` runs the real-code side and the Rust-only O checks alone (development aid)
     let drv = if args.extra.get("nodriver").map(|s| s == "1").unwrap_or(false) { None } else { Some(Driver::spawn(&args.driver)) };
-    let mut ctx = Ctx { rep, drv, shrink_runs: 0, samples_by_origin: BTreeMap::new() };
+    let cli = args.extra.get("cli").cloned();
+    let mut ctx = Ctx { rep, drv, shrink_runs: 0, samples_by_origin: BTreeMap::new(), cli, scratch: args.scratch.clone(), cli_seq: 0, cli_later_notes: 0 };
     if ctx.drv.is_none() {
         ctx.rep.notes.push("no driver: K and the reference comparison were skipped".into());
     }
@@ -1416,7 +1463,11 @@ fn main() {
     if let Some(path) = &args.replay {
         let v: Value = serde_json::from_str(&std::fs::read_to_string(path).expect("replay file")).expect("replay json");
         let mat = Mat::from_json(&v["case"]).expect("replay case: {\"files\": [...], \"alt_files\": [...] | null}");
-        ctx.process(vec![Case { mat, abs: None, origin: "replay" }]);
+        if v["case"]["cli"].as_bool() == Some(true) {
+            ctx.process_cli(vec![Case { mat, abs: None, origin: "replay" }]);
+        } else {
+            ctx.process(vec![Case { mat, abs: None, origin: "replay" }]);
+        }
         ctx.rep.write(&args);
         return;
     }
@@ -1427,6 +1478,29 @@ fn main() {
     let search = args.extra.get("search").map(|s| s == "1").unwrap_or(false);
     let mul = if search { 2 } else { 1 };
     let mut rng = Rng::new(args.seed);
+
+    // ---- CLI leg (real binary on scratch projects; kept modest: two runs per case)
+    let t_cli = std::time::Instant::now();
+    ctx.process_cli(cli_corpus().into_iter().map(|mat| Case { mat, abs: None, origin: "cli-corpus" }).collect());
+    let n_cli_valid = args.budget(90, 1200) * mul;
+    let mut batch = vec![];
+    for _ in 0..n_cli_valid {
+        let abs = cli_leg::cli_valid(&mut rng, &mut ctx.rep);
+        batch.push(Case { mat: abs.materialize(), abs: Some(abs), origin: "cli-valid" });
+    }
+    ctx.process_cli(batch);
+    // arbitrary (mostly ill-typed) documents whose names collide with the built-in scalars': only the resolver's
+    // verdict is observable (error iff duplicate-original or orphan-extension, the built-ins counted as definitions)
+    let n_cli_targeted = args.budget(90, 1200) * mul;
+    let mut batch = vec![];
+    for _ in 0..n_cli_targeted {
+        let mut pool = ["A", "Q", "ID", "Int"];
+        pool[rng.below(2)] = *rng.pick(&["String", "Boolean", "Float", "B"]);
+        let abs = targeted_named(&mut rng, &mut ctx.rep, pool);
+        batch.push(Case { mat: abs.materialize(), abs: Some(abs), origin: "cli-targeted" });
+    }
+    ctx.process_cli(batch);
+    ctx.rep.extra.insert("cli_seconds".into(), json!((t_cli.elapsed().as_secs_f64() * 10.0).round() / 10.0));
 
     let n_gen = args.budget(300, 4000) * mul;
     let mut batch = vec![];
